@@ -11,11 +11,13 @@ import GoLucene.Spec.Classes
 
   ESCAPING clause (Proofs/EscapedVerbatim.lean): `escapeWord env w` writes a backslash before every rune of `w` that is
   not a letter / digit / `_` (and before the first rune when `w` is a keyword or starts with `-`).  For every non-empty
-  `w` that contains no `*`, `?`, backslash and is not numeric-looking (`escapable`), `f:<escapeWord w>` parses to exactly
-  Equals(Column f, Literal w), with the same SQL corollaries.  `escaped_tree_iff` gives the EXACT domain of the clause
-  (`escapableX`), so every condition is necessary; where the clause is false the refutations are theorems and recorded
-  findings: K-escape-wild (`a:b\*` stays a pattern with the backslash kept), K-escape-backslash (`a:a\\b` loses the
-  backslash), K-dangling-escape (`a:b\` at the end of the input drops the backslash).
+  `w` that contains no `*`, `?` and is not numeric-looking (`escapable`), `f:<escapeWord w>` parses to exactly
+  Equals(Column f, Literal w), with the same SQL corollaries.  Backslashes in `w` are fine since fix F13 (parse.go
+  `unescape`): `escapeWord` writes `\\` for each, and `unescape (escapeWord env w) = w` for every text
+  (`unescape_escapeWord`); `a:a\\b` is the value `a\b` (`escaped_backslash_kept`; the former finding K-escape-backslash
+  is closed).  `escaped_tree_iff` gives the EXACT domain of the clause (`escapableX`), so every condition is necessary;
+  where the clause is false the refutations are theorems and recorded findings: K-escape-wild (`a:b\*` stays a pattern
+  with the backslash kept), K-dangling-escape (`a:b\` at the end of the input drops the backslash).
 
   The class-table hypotheses (`quoteColonNotAlnum`, `escHyp`) are discharged for every table that agrees with the live
   `unicode.IsLetter` / `IsDigit` on ASCII (Spec/Classes.lean, regenerated tables).
@@ -33,5 +35,10 @@ theorem escaped_word_is_verbatim (env : Env) (hk : escHypB env.cls = true) (f : 
       ∃ t, render pgFns (tree f w) = .ok t ∧ Sql.parseSql t = some (.cmp .eq (.col f) (.str w))) ∧
     renderParam pgFns (tree f w) = .ok ([34] ++ f ++ [34] ++ b " = ?", [.str w]) :=
   escaped_verbatim_main env hk f hf w hw
+
+/-- fix F13: `unescape` (parse.go) inverts the escaping, on every text `w` whatsoever -/
+theorem unescape_inverts_escapeWord (env : Env) (hk : escHypB env.cls = true) (w : Bytes) :
+    unescape (escapeWord env w) = w :=
+  unescape_escapeWord env (escHyp_of_B _ hk).2.1 w
 
 end GoLucene.C08
